@@ -114,6 +114,8 @@ type wireFact struct {
 // wireAlt: an equivalent formulation of the same connection (e.g. append in loop order instead of an indexed store), by obligation key.
 var wireAlt = map[string][]string{
 	"desc.Chord.Describe|order":                 {"call builtin.append(phi", ",[desc.Attribute.Describe(p0.attr,chord.Mapper.GetChordAttributes(p0.mapper,p1)#0[i].Name,p2,p3)#0])"},
+	// the generated name: prefix then the number in decimal, by formatting or by concatenation
+	"chord.GenerateAttributes|name": {"store var<chord.Attribute>.Name <- ", "#0+strconv.FormatUint(p0.Value,10)"},
 	"astconv.ValuesConverterImpl.Convert|order": {"call builtin.append(phi", ",[astconv.ValuesConverterImpl.convertValue(p0,p1.Values[i])#0])"},
 }
 
@@ -240,8 +242,8 @@ var wireSpecs = []wireSpec{
 	}},
 	{"desc", "Key.Describe", []wireFact{
 		{"scale", []string{".Scale <- p1"}, "the key's scale is not reported"},
-		{"triads", []string{".Diatonic.Triads <- op.DiatonicChorderImpl.Triads(op.NewDiatonicChorder(p1))"}, "triads are not the scale's triads"},
-		{"sevenths", []string{".Diatonic.Sevenths <- op.DiatonicChorderImpl.Sevenths(op.NewDiatonicChorder(p1))"}, "sevenths are not the scale's seventh chords"},
+		{"triads", []string{".Triads <- op.DiatonicChorderImpl.Triads(op.NewDiatonicChorder(p1))"}, "triads are not the scale's triads"},
+		{"sevenths", []string{".Sevenths <- op.DiatonicChorderImpl.Sevenths(op.NewDiatonicChorder(p1))"}, "sevenths are not the scale's seventh chords"},
 	}},
 	{"op", "DiatonicChorderImpl.Triads", []wireFact{{"names", []string{"call op.DiatonicChorderImpl.generate(p0,op.DiatonicChorderImpl.triadNames(p0))"}, "triads are not generated from the triad name table"}}},
 	{"op", "DiatonicChorderImpl.Sevenths", []wireFact{{"names", []string{"call op.DiatonicChorderImpl.generate(p0,op.DiatonicChorderImpl.seventhNames(p0))"}, "sevenths are not generated from the seventh name table"}}},
